@@ -1126,3 +1126,116 @@ func checkPipeWriterClosed(c *Ctx, r *Report, rule string) {
 		r.OK(rule, "the library makes no in-process pipe", "-", "no call of io.Pipe in the library")
 	}
 }
+
+// ---- C08/C09: a sub-match of a device-supplied text is indexed only after the match was seen to exist ---------------
+//
+// FindSubmatch returns nil when the pattern does not match. Every constant index into such a result must be dominated
+// by a test of the result (nil / len), or the result must come out of a range over FindAllSubmatch (whose elements are
+// matches), and the index must not exceed the number of groups of the pattern. An unguarded index is a panic that a
+// peer's reply can trigger (found on the pinned tree: G23).
+
+func checkSubmatchGuarded(c *Ctx, r *Report, rule string, pkgSuffixes []string) {
+	n := 0
+	for _, fn := range c.LibFns {
+		if fn.Pkg == nil {
+			continue
+		}
+		inScope := false
+		for _, sfx := range pkgSuffixes {
+			if strings.HasSuffix(fn.Pkg.Pkg.Path(), sfx) {
+				inScope = true
+			}
+		}
+		if !inScope {
+			continue
+		}
+		ord := 0
+		for _, ci := range callInstrs(fn) {
+			call, ok := ci.(*ssa.Call)
+			if !ok {
+				continue
+			}
+			o := CalleeObj(call)
+			if o == nil || o.Pkg() == nil || o.Pkg().Path() != "regexp" || !strings.Contains(o.Name(), "Submatch") || strings.Contains(o.Name(), "All") {
+				continue
+			}
+			// constant indexes into the result
+			var idx []*ssa.IndexAddr
+			for _, ref := range *call.Referrers() {
+				if ia, isIA := ref.(*ssa.IndexAddr); isIA && ia.X == ssa.Value(call) {
+					idx = append(idx, ia)
+				}
+			}
+			if len(idx) == 0 {
+				continue
+			}
+			n++
+			ord++
+			construct := fmt.Sprintf("%s sub-match #%d (%s)", shortFn(fn), ord, o.Name())
+			groups := -1
+			if f, _, isLoad := fieldLoad(call.Call.Args[0]); isLoad && f != nil {
+				if pat, at := patternOfAnyField(c, f); at != nil {
+					if re, err := syntax.Parse(pat, syntax.Perl); err == nil {
+						groups = re.MaxCap()
+					}
+				}
+			}
+			bad := ""
+			for _, ia := range idx {
+				k, isC := constInt(ia.Index)
+				guarded := false
+				for _, ec := range edgeConds(ia.Block()) {
+					if x, nonNilOnTrue, isNil := nilCheck(ec.Cond); isNil && x == ssa.Value(call) && nonNilOnTrue == ec.Truth {
+						guarded = true
+					}
+					v, _ := unwrapNot(ec.Cond)
+					if bo, isBo := v.(*ssa.BinOp); isBo {
+						for _, side := range []ssa.Value{bo.X, bo.Y} {
+							if lc, isCall := side.(*ssa.Call); isCall {
+								if b, isB := lc.Call.Value.(*ssa.Builtin); isB && b.Name() == "len" && lc.Call.Args[0] == ssa.Value(call) {
+									guarded = true
+								}
+							}
+						}
+					}
+				}
+				switch {
+				case !guarded:
+					bad = fmt.Sprintf("the result of %s is indexed at %s without a test that the pattern matched: text in which the pattern does not occur (a reply without the expected element) makes the call panic with an index out of range instead of returning an error", o.Name(), c.Pos(ia.Pos()))
+				case isC && groups >= 0 && int(k) > groups:
+					bad = fmt.Sprintf("sub-match %d is read at %s but the pattern has only %d group(s)", k, c.Pos(ia.Pos()), groups)
+				}
+			}
+			if bad != "" {
+				r.Bad(rule, construct, c.Pos(call.Pos()), bad)
+			} else {
+				r.OK(rule, construct, c.Pos(call.Pos()), "every index is dominated by a nil / len test of the match")
+			}
+		}
+	}
+	if n == 0 {
+		r.Unk(rule, "sub-match indexes", "-", "no indexed FindSubmatch result found in scope")
+	}
+}
+
+// patternOfAnyField: the constant pattern compiled into the given struct field (any pattern table of the library).
+func patternOfAnyField(c *Ctx, f *types.Var) (string, ssa.Instruction) {
+	var pat string
+	var at ssa.Instruction
+	for _, fn := range c.LibFns {
+		allInstrs(fn, func(in ssa.Instruction) {
+			ff, _, v, ok := fieldStore(in)
+			if !ok || ff != f {
+				return
+			}
+			if call, ok := v.(*ssa.Call); ok {
+				if o := CalleeObj(call); o != nil && o.Pkg() != nil && o.Pkg().Path() == "regexp" && len(call.Call.Args) == 1 {
+					if s, ok := constString(call.Call.Args[0]); ok {
+						pat, at = s, in
+					}
+				}
+			}
+		})
+	}
+	return pat, at
+}
